@@ -570,6 +570,10 @@ impl Oplog {
         let ghost bl1 = byte_lengths@;
     after `byte_lengths.pop();`:
         proof { lemma_sum_u64_nonneg(byte_lengths@); assert(bl1.drop_last() =~= byte_lengths@); }
+    before `entries.push(res.0);`:
+        // C02: an entry is replayed only if it carries the header bit of the current header; entries written before the last
+        // header flush carry the other bit: they are already contained in that header and must not be applied again
+        assert(entry_outcome.header_bit == Oplog::cur_hbit(outcome.oplog.header_bits));
     before `byte_lengths.push((entries_buff.len() - res.1.len()) as u64);`:
         let ghost bl0 = byte_lengths@;
     after `byte_lengths.push((entries_buff.len() - res.1.len()) as u64);`:
